@@ -88,8 +88,8 @@ def generate(rng, tier):
     vals = [None, 1, 2, 3, 'a', 'b', 'c', 2.5]
     for _ in range(n):
         w = rng.choice([1, 2])
-        orders = [rng.sample(vals, rng.choice([0, 1, 2, 3])) for _ in range(w)]
-        k = rng.choice([1, 2, 4, 7])
+        orders = [rng.sample(vals, rng.choice([0, 1, 2, 3, 5, 6, 8])) for _ in range(w)]
+        k = rng.choice([2, 2, 3, 4, 7])
         rows = [[rng.choice(vals) for _ in range(w)] for _ in range(k)]
         yield dict(tag='dictable.sort-byval', lines=['(cmp byvalidx %s %s)' % (enc(orders), enc(rows))])
 
@@ -232,6 +232,40 @@ def laws(rng, tier, ctx):
                     yield Finding('violation', dict(tag='law-trans', atomic=True, lines=[
                         '(cmp cmp %s %s)' % (enc(U[i]), enc(U[j])), '(cmp cmp %s %s)' % (enc(U[j]), enc(U[k])),
                         '(cmp cmp %s %s)' % (enc(U[i]), enc(U[k]))]), 'x<=y, y<=z but cmp(x,z)=1')
+    # numerically equal numbers of any spelling (python / numpy ints and floats) compare equal; NaN above every finite number
+    nums = [x for x in U + [np.int64(2), np.float64(2.0), np.float32(2.5), 2 ** 53, float(2 ** 53), 2 ** 53 + 1, np.float64(-0.25), np.int32(-1)]
+            if isinstance(x, (int, float, np.integer, np.floating)) and not isinstance(x, (bool, np.bool_))]
+    for x in nums:
+        for y in nums:
+            count += 1
+            fx, fy = float(x), float(y)
+            if fx != fx or fy != fy or fx in (float('inf'), float('-inf')) or fy in (float('inf'), float('-inf')):
+                continue
+            c = pyg_base.cmp(x, y)
+            want = 0 if x == y else None
+            if want == 0 and c != 0:
+                yield Finding('violation', dict(tag='law-numeq', lines=['(cmp cmp %s %s)' % (enc(x), enc(y))]),
+                              'numerically equal numbers %r (%s) and %r (%s) compare %s' % (x, type(x).__name__, y, type(y).__name__, c))
+        if float(x) == float(x) and abs(float(x)) != float('inf'):
+            for nanv in (float('nan'), np.nan, np.float64('nan')):
+                count += 1
+                if pyg_base.cmp(x, nanv) != -1 or pyg_base.cmp(nanv, x) != 1:
+                    yield Finding('violation', dict(tag='law-nantop', lines=['(cmp cmp %s F:nan)' % enc(x)]),
+                                  'NaN does not rank above the finite number %r (%s)' % (x, type(x).__name__))
+    # transitivity on triples around the float precision boundary (ints beyond 2**53 are outside the model: laws only)
+    big = [2 ** 53, float(2 ** 53), 2 ** 53 + 1, 2 ** 53 + 2, np.int64(2 ** 53 + 1), -2 ** 53 - 1, float(-2 ** 53), (2 ** 53,), (float(2 ** 53),), (2 ** 53 + 1,)]
+    for x in big:
+        for y in big:
+            for z in big:
+                count += 1
+                try:
+                    cxy, cyz, cxz = pyg_base.cmp(x, y), pyg_base.cmp(y, z), pyg_base.cmp(x, z)
+                except Exception as e:
+                    yield Finding('violation', dict(tag='law-big', lines=[]), 'cmp raised %s on %r %r %r' % (type(e).__name__, x, y, z))
+                    continue
+                if cxy in (-1, 0) and cyz in (-1, 0) and cxz == 1:
+                    yield Finding('violation', dict(tag='law-trans-big', lines=[], values=[repr(x), repr(y), repr(z)]),
+                                  'x<=y, y<=z but cmp(x,z)=1 for x=%r y=%r z=%r' % (x, y, z))
     # numeric equality and NaN on top
     for x in [0, 1, -1, 2, 10 ** 6]:
         count += 2
